@@ -694,7 +694,7 @@ pub fn run_dns(sc: &DnsScenario) -> Outcome {
     out
 }
 
-fn port_strategy() -> BoxedStrategy<PortScenario> {
+pub fn port_strategy() -> BoxedStrategy<PortScenario> {
     (3u16..=8, any::<bool>(), any::<u64>())
         .prop_flat_map(|(range_len, v6, seed)| {
             let off = -2i16..(range_len as i16 + 2);
